@@ -107,6 +107,18 @@ pub fn run(tier: Tier) -> i32 {
             }
         }));
     }
+    // no position is special: the same short contexts behind a long run of ordinary words, so that the 'o' sits just
+    // before / at / after token positions 2^8, 2^16, 2^17 (a blank counts as a token)
+    let far_words: Vec<usize> = tier.pick(vec![127, 128, 32767, 32768, 65536], vec![127, 128, 129, 16384, 32767, 32768, 32769, 65535, 65536, 65537, 131072]);
+    let far_alpha: Vec<String> = ["o", "five", "xyzzy"].iter().map(|s| s.to_string()).collect();
+    for &n in &far_words {
+        let prefix = "word ".repeat(n);
+        acc_new.merge(explore::all_sequences2(&far_alpha, 3, |syms, acc| {
+            if syms.iter().any(|s| *s == "o") {
+                one_text(&ctx, acc, &lang, &format!("{prefix}{}", syms.join(" ")));
+            }
+        }));
+    }
     let mut acc = explore::all_sequences2(&alphabet, k, |syms, acc| {
         if !syms.iter().any(|s| s.eq_ignore_ascii_case("o")) {
             return;
@@ -146,7 +158,7 @@ pub fn run(tier: Tier) -> i32 {
     let cov = json!({
         "exhaustive": true,
         "rule": "every English token sequence of length <= k over the alphabet that contains an 'o', in four renderings (spaces everywhere, no-break spaces everywhere, punctuation glued to the previous word, no spaces around punctuation), at every threshold; compared with the same text where each 'o' is replaced by 'zero' or by an ordinary word according to the statement's neighbour rule; non-trivial = texts with at least one 'o' token",
-        "bounds": {"alphabet": alphabet, "depth": k, "inflected_neighbours_alphabet": inflected, "inflected_depth": 4, "every_number_word_stage": {"words": every.len(), "alphabet": "o, the word, xyzzy, comma", "depth": 4}},
+        "bounds": {"alphabet": alphabet, "depth": k, "inflected_neighbours_alphabet": inflected, "inflected_depth": 4, "every_number_word_stage": {"words": every.len(), "alphabet": "o, the word, xyzzy, comma", "depth": 4}, "far_position_stage": {"ordinary_words_in_front": far_words, "alphabet": far_alpha, "depth": 3}},
         "thresholds": T.iter().map(|t| thr_name(*t)).collect::<Vec<_>>(),
     });
     acc.merge(acc_infl);
